@@ -106,6 +106,9 @@ def declared_graph(spec):
        edges[g] : set of (parent, child)       (ordering edges; feedback never contributes)
     and  anc[g] : name -> set of ancestors (transitive closure of edges[g])
          fed    : fed-back value name -> set of algorithm ids that declare it as feedback
+         fb[g]  : name -> set of names (same granularity) of the producers the node declares as feedback:
+                  a node of granularity g stands for (part of) one or more algorithms; it carries the fed-back
+                  values of exactly those algorithms, trimmed to g (nodes of other algorithms carry nothing)
     '''
     nodes = {4: set(), 3: set(), 2: set(), 1: set()}
     edges = {4: set(), 3: set(), 2: set(), 1: set()}
@@ -138,7 +141,13 @@ def declared_graph(spec):
                     todo.extend(par[x])
             clo[n] = seen
         anc[g] = clo
-    return {'nodes': nodes, 'edges': edges, 'anc': anc, 'fed': fed}
+    fb = {g: {n: set() for n in nodes[g]} for g in (4, 3, 2, 1)}
+    for a in spec['algs']:
+        theirs = expand(spec, a.get('feedback', []))
+        for g in (4, 3, 2, 1):
+            for m in values_of(a):
+                fb[g][trim(m, g)].update(trim(v, g) for v in theirs)
+    return {'nodes': nodes, 'edges': edges, 'anc': anc, 'fed': fed, 'fb': fb}
 
 
 def is_acyclic(spec):
@@ -821,24 +830,44 @@ def _ref(target, level, a, b):
     return ['v', tid, svn, vals[b % len(vals)]]
 
 
-def make_spec(edges, parts, kinds, layouts, picks, feedback=None, style='classic', double=()):
+# name tables for make_spec(names=...): names that are string prefixes of one another at one or at every level
+NAMESETS = {
+    'alg-prefix': {'alg': ['cal', 'cal_fit', 'cal_fit_x', 'ca']},
+    'all-prefix': {
+        'alg': ['cal', 'cal_fit', 'cal_fit_x', 'ca'],
+        'pkg': ['t', 't1', 't12'],
+        'sv': ['s', 's1'],
+        'v': ['v', 'v1'],
+    },
+}
+
+
+def make_spec(edges, parts, kinds, layouts, picks, feedback=None, style='classic', double=(), names=None):
     '''assemble a spec from a skeleton
     edges   : [(i, j)] i < j : algorithm j declares (part of) algorithm i as input
     parts   : package index per algorithm;  kinds : 'task'/'analysis'/'regress' per algorithm
     layouts : index into SV_LAYOUTS per algorithm
     picks   : per edge (level, a, b) see _ref;  double : edges that carry a second, different reference
-    feedback: None or (consumer i, producer j, level, a, b)
+    feedback: None or (consumer i, producer j, level, a, b) or a list of such tuples
+    names   : None (p<k>, a<i>, s<k>, v<k>) or a dict of name lists by level ('pkg', 'alg', 'sv', 'v'), see NAMESETS
     '''
     n = len(parts)
+    names = names or {}
+
+    def nm(level, k, default):
+        return names[level][k] if level in names else default
+
     algs = []
     for i in range(n):
         lay = SV_LAYOUTS[layouts[i] % len(SV_LAYOUTS)]
         algs.append(
             {
-                'pkg': f'p{parts[i]}',
+                'pkg': nm('pkg', parts[i], f'p{parts[i]}'),
                 'kind': kinds[i],
-                'name': f'a{i}',
-                'svs': [[f's{s}', [f'v{v}' for v in range(nv)]] for s, nv in enumerate(lay)],
+                'name': nm('alg', i, f'a{i}'),
+                'svs': [
+                    [nm('sv', s, f's{s}'), [nm('v', v, f'v{v}') for v in range(nv)]] for s, nv in enumerate(lay)
+                ],
                 'inputs': [],
                 'feedback': [],
             }
@@ -852,8 +881,10 @@ def make_spec(edges, parts, kinds, layouts, picks, feedback=None, style='classic
             if r2 != r:
                 algs[j]['inputs'].append(r2)
     if feedback:
-        i, j, lvl, a, b = feedback
-        algs[i]['feedback'].append(_ref(algs[j], lvl, a, b))
+        for i, j, lvl, a, b in [feedback] if isinstance(feedback, tuple) else feedback:
+            r = _ref(algs[j], lvl, a, b)
+            if r not in algs[i]['feedback']:
+                algs[i]['feedback'].append(r)
     return {'style': style, 'algs': algs, 'events': []}
 
 
